@@ -36,6 +36,14 @@ def known_match(prop, violation, known):
     return None
 
 
+def small_json(f):
+    """a broken tie as it goes into the evidence file: the input is kept only when it is small (the replay file holds it in full)"""
+    j = f.to_json()
+    if len(json.dumps(j.get("case"))) > 20000:
+        j["case"] = "(input omitted from the evidence: %d characters; see the replay file)" % len(json.dumps(j["case"]))
+    return j
+
+
 def main():
     ap = argparse.ArgumentParser()
     ap.add_argument("prop")
@@ -116,7 +124,7 @@ def main():
         signal.setitimer(signal.ITIMER_REAL, phase_limit)
         failures += chk.correspond(drv, stats)
         from vcheck import reuse as _reuse
-        failures += _reuse.check(a.prop, stats)        # statelessness: used-then-changed objects vs fresh objects
+        failures += _reuse.check(a.prop, stats, chk.quick)        # statelessness: used-then-changed objects vs fresh objects
     except Exception:
         failures.append(core.Failure("correspondence", "harness of " + a.prop, traceback.format_exc()))
     finally:
@@ -187,7 +195,7 @@ def main():
         evaluations=stats.evaluations, distinct_nontrivial=len(stats.distinct),
         rule=getattr(chk, "rule", ""), samples=stats.samples or [dict(obligation=n) for n in aud["obligations"][:3]],
         input_distribution=stats.hist, monitors=stats.monitors,
-        broken_ties=[f.to_json() for f in failures[:10]],
+        broken_ties=[small_json(f) for f in failures[:10]],
         lean_build_s=aud.get("build_s"),
         model_source_drift=drift,
     )
